@@ -1036,6 +1036,116 @@ pub fn open_handle_probes<V: VirtualFileSystem>(backend: &str, fs: &V, dir: &str
     out
 }
 
+/// Size sweep: contents whose length sits on and around every power of two up to 64 KiB (and every length up
+/// to 130) go through write_all / read_all, a one-line write_lines / read_lines, write + append, and a write
+/// handle fed in two chunks; read back through read_all, a read handle (read_to_end) and, for the short
+/// ones, a handle read one byte at a time. The bytes vary with the position, so a byte served from the
+/// wrong offset shows. (the state sweeps only use contents of a few bytes)
+pub fn size_sweep<V: VirtualFileSystem>(backend: &str, fs: &V, dir: &str, count: &mut u64) -> Vec<(String, String)> {
+    use std::io::Read;
+    let mut out: Vec<(String, String)> = vec![];
+    let mut sizes: Vec<usize> = (0..=130).collect();
+    for k in 8..=16 {
+        let p = 1usize << k;
+        sizes.extend([p - 1, p, p + 1]);
+    }
+    sizes.extend([8192 * 2 + 1, 8192 * 3 + 1, 8192 * 3 - 1]);
+    let pat = |n: usize| -> Vec<u8> { (0..n).map(|i| b'a' + ((i * 7 + i / 13 + i / 257) % 23) as u8).collect() };
+    let f = format!("{}/sz", dir);
+    let mut bad = |form: &str, n: usize, what: String| {
+        out.push((format!("{} size sweep · {} · content differs", backend, form), format!("content of {} bytes: {}", n, what)));
+    };
+    let brief = |got: &[u8], want: &[u8]| -> String {
+        let i = got.iter().zip(want.iter()).position(|(a, b)| a != b).unwrap_or(got.len().min(want.len()));
+        format!("{} bytes read, {} expected, first difference at offset {}", got.len(), want.len(), i)
+    };
+    for &n in &sizes {
+        let want = pat(n);
+        let text = String::from_utf8(want.clone()).unwrap();
+        let _ = fs.remove(&f);
+        // (1) write_all -> read_all / read handle
+        *count += 1;
+        match guarded(|| fs.write_all(&f, &want).and_then(|_| fs.read_all(&f))) {
+            Ok(Ok(got)) if got == text => {},
+            Ok(Ok(got)) => bad("write_all/read_all", n, brief(got.as_bytes(), &want)),
+            Ok(Err(e)) => bad("write_all/read_all", n, format!("error {}", e)),
+            Err(p) => bad("write_all/read_all", n, format!("panic {}", p)),
+        }
+        *count += 1;
+        match guarded(|| -> Result<Vec<u8>, String> {
+            let mut h = fs.read(&f).map_err(|e| e.to_string())?;
+            let mut v = vec![];
+            h.read_to_end(&mut v).map_err(|e| e.to_string())?;
+            Ok(v)
+        }) {
+            Ok(Ok(got)) if got == want => {},
+            Ok(Ok(got)) => bad("read handle read_to_end", n, brief(&got, &want)),
+            Ok(Err(e)) => bad("read handle read_to_end", n, format!("error {}", e)),
+            Err(p) => bad("read handle read_to_end", n, format!("panic {}", p)),
+        }
+        if n <= 70 {
+            *count += 1;
+            match guarded(|| -> Result<Vec<u8>, String> {
+                let mut h = fs.read(&f).map_err(|e| e.to_string())?;
+                let mut v = vec![];
+                let mut b = [0u8; 1];
+                for _ in 0..n + 2 {
+                    match h.read(&mut b).map_err(|e| e.to_string())? {
+                        0 => break,
+                        _ => v.push(b[0]),
+                    }
+                }
+                Ok(v)
+            }) {
+                Ok(Ok(got)) if got == want => {},
+                Ok(Ok(got)) => bad("read handle one byte at a time", n, brief(&got, &want)),
+                Ok(Err(e)) => bad("read handle one byte at a time", n, format!("error {}", e)),
+                Err(p) => bad("read handle one byte at a time", n, format!("panic {}", p)),
+            }
+        }
+        // (2) one non-empty line of n-1 characters plus the terminator (what an empty line in a line list
+        // means is the business of the state sweep's model, see payload_defined)
+        if n >= 2 {
+            let line = text[..n - 1].to_string();
+            *count += 1;
+            match guarded(|| fs.write_lines(&f, &[line.clone()]).and_then(|_| fs.read_lines(&f))) {
+                Ok(Ok(got)) if got == vec![line.clone()] => {},
+                Ok(Ok(got)) => bad("write_lines/read_lines", n, format!("{} lines of lengths {:?} read, one line of length {} expected", got.len(), got.iter().map(|l| l.len()).take(4).collect::<Vec<_>>(), line.len())),
+                Ok(Err(e)) => bad("write_lines/read_lines", n, format!("error {}", e)),
+                Err(p) => bad("write_lines/read_lines", n, format!("panic {}", p)),
+            }
+        }
+        // (3) write + append, (4) write handle in two chunks
+        let (a, b) = want.split_at(n / 2);
+        *count += 1;
+        match guarded(|| fs.write_all(&f, a).and_then(|_| fs.append_all(&f, b)).and_then(|_| fs.read_all(&f))) {
+            Ok(Ok(got)) if got == text => {},
+            Ok(Ok(got)) => bad("write_all+append_all/read_all", n, brief(got.as_bytes(), &want)),
+            Ok(Err(e)) => bad("write_all+append_all/read_all", n, format!("error {}", e)),
+            Err(p) => bad("write_all+append_all/read_all", n, format!("panic {}", p)),
+        }
+        *count += 1;
+        match guarded(|| -> Result<String, String> {
+            {
+                let mut h = fs.write(&f).map_err(|e| e.to_string())?;
+                h.write_all(a).map_err(|e| e.to_string())?;
+                h.flush().map_err(|e| e.to_string())?;
+                h.write_all(b).map_err(|e| e.to_string())?;
+            }
+            fs.read_all(&f).map_err(|e| e.to_string())
+        }) {
+            Ok(Ok(got)) if got == text => {},
+            Ok(Ok(got)) => bad("write handle in two chunks/read_all", n, brief(got.as_bytes(), &want)),
+            Ok(Err(e)) => bad("write handle in two chunks/read_all", n, format!("error {}", e)),
+            Err(p) => bad("write handle in two chunks/read_all", n, format!("panic {}", p)),
+        }
+    }
+    let _ = fs.remove(&f);
+    out.sort_by(|a, b| a.0.cmp(&b.0));
+    out.dedup_by(|a, b| a.0 == b.0);
+    out
+}
+
 pub fn worker(w: &mut WorkerCtx) {
     unsafe {
         libc::umask(0o022);
@@ -1049,6 +1159,14 @@ pub fn worker(w: &mut WorkerCtx) {
             w.vio(&sig, || detail, || J::obj([("part", J::s("open-handle-probe"))]));
         }
         w.count("open_handle_probes", 1);
+        sb.reset();
+    }
+    if w.shard == 1 % w.nshards {
+        let mut n = 0u64;
+        for (sig, detail) in size_sweep("stdfs", &Stdfs::new(), &sb.root, &mut n) {
+            w.vio(&sig, || detail, || J::obj([("part", J::s("open-handle-probe"))]));
+        }
+        w.count("size_sweep_roundtrips", n);
         sb.reset();
     }
     let world = DiskWorld { root: sb.root.clone(), fs: Stdfs::new() };
@@ -1111,6 +1229,14 @@ pub fn run(ctx: &Ctx) -> i32 {
             vio(&sig, || detail, || J::obj([("part", J::s("open-handle-probe"))]));
         }
     }
+    let mut size_sweep_n = 0u64;
+    {
+        let fs = Memfs::new();
+        let _ = fs.mkdir_p("/d");
+        for (sig, detail) in size_sweep("memfs", &fs, "/d", &mut size_sweep_n) {
+            vio(&sig, || detail, || J::obj([("part", J::s("open-handle-probe"))]));
+        }
+    }
     let ops = Arc::new(alphabet());
     let depth = ctx.tier.pick(4usize, 5usize);
     let sdepth = ctx.tier.pick(3usize, 4usize);
@@ -1136,6 +1262,10 @@ pub fn run(ctx: &Ctx) -> i32 {
     }
     println!("  stdfs: depth {}: {} model states materialised, {} transitions", sdepth, g.c("stdfs_states"), g.c("stdfs_transitions"));
     let expect_std = g.c("stdfs_states") * ops.len() as u64;
+    if g.c("size_sweep_roundtrips") == 0 {
+        eprintln!("machinery: the Stdfs size sweep did not run");
+        return 2;
+    }
     if g.c("stdfs_transitions") != expect_std {
         eprintln!("machinery: stdfs workers executed {} transitions, expected {}", g.c("stdfs_transitions"), expect_std);
         return 2;
@@ -1151,6 +1281,7 @@ pub fn run(ctx: &Ctx) -> i32 {
         ("traces_validated_against_impl", J::i(mem.transitions + g.c("stdfs_transitions"))),
         ("samples", J::Arr(samples)),
         ("exhaustive", J::Bool(mem.not_expanded_after_violation == 0)),
+        ("size_sweep", J::s(format!("contents of every length 0..=130 and 2^k-1, 2^k, 2^k+1 for k = 8..=16 (plus 3 multiples of 8 KiB +-1) through write_all, a one-line write_lines, write+append and a two-chunk write handle, read back through read_all, read_lines, a read handle and byte-wise reads, on both backends: {} round trips", size_sweep_n + g.c("size_sweep_roundtrips")))),
         ("alphabet_calls", J::i(nops)),
         (
             "memfs",
@@ -1214,9 +1345,13 @@ fn replay(ctx: &Ctx, p: &std::path::Path) -> i32 {
         let fs = Memfs::new();
         let _ = fs.mkdir_p("/d");
         let mut found = open_handle_probes("memfs", &fs, "/d");
+        let mut n = 0u64;
+        found.extend(size_sweep("memfs", &fs, "/d", &mut n));
         if unsafe { libc::geteuid() } == 0 {
             let sb = Sandbox::new("c06probe");
             found.extend(open_handle_probes("stdfs", &Stdfs::new(), &sb.root));
+            sb.reset();
+            found.extend(size_sweep("stdfs", &Stdfs::new(), &sb.root, &mut n));
         }
         for (sig, detail) in &found {
             println!("  {}: {}", sig, detail);
